@@ -2825,6 +2825,54 @@ theorem cnt1_diag_set (A B : ι → ι → ℝ) (hoff : ∀ a b, a ≠ b → (B 
 
 end diagcount
 
+section nestcount
+open BigOperators Finset
+variable {ι : Type} [Fintype ι] [DecidableEq ι]
+
+/-- every non-zero entry of column `v` of `B` sits in a row of `S` where `M` is non-zero too -/
+theorem ccnt_le_dset (B M : ι → ι → ℝ) (S : ι → Prop) [DecidablePred S] (v : ι)
+    (h : ∀ w, B w v ≠ 0 → S w ∧ M w v ≠ 0) : ccnt B v ≤ dset M S v := by
+  unfold ccnt dset
+  apply Finset.card_le_card
+  intro w hw
+  rw [Finset.mem_filter] at hw ⊢
+  exact ⟨hw.1, h w hw.2⟩
+
+/-- every non-zero entry of row `v` of `B` sits in a column of `S` where `M` is non-zero too -/
+theorem cnt_le_rset (B M : ι → ι → ℝ) (S : ι → Prop) [DecidablePred S] (v : ι)
+    (h : ∀ w, B v w ≠ 0 → S w ∧ M v w ≠ 0) : cnt (B v) ≤ rset M S v := by
+  unfold cnt rset
+  apply Finset.card_le_card
+  intro w hw
+  rw [Finset.mem_filter] at hw ⊢
+  exact ⟨hw.1, h w hw.2⟩
+
+theorem ccnt_pos_of_witness (B : ι → ι → ℝ) (x y : ι) (h : B x y ≠ 0) : 1 ≤ ccnt B y := by
+  unfold ccnt
+  apply Finset.card_pos.mpr
+  exact ⟨x, by rw [Finset.mem_filter]; exact ⟨Finset.mem_univ x, h⟩⟩
+
+theorem cnt_pos_of_witness (B : ι → ι → ℝ) (x y : ι) (h : B x y ≠ 0) : 1 ≤ cnt (B x) := by
+  unfold cnt
+  apply Finset.card_pos.mpr
+  exact ⟨y, by rw [Finset.mem_filter]; exact ⟨Finset.mem_univ y, h⟩⟩
+
+/-- every entry of column `v` of `B` is the `M`-entry of a row in `S`, or zero -/
+theorem csum_le_wset (B M : ι → ι → ℝ) (S : ι → Prop) [DecidablePred S] (v : ι)
+    (hM : ∀ a b, 0 ≤ M a b)
+    (h : ∀ w, B w v = (if S w then M w v else 0) ∨ (B w v = 0)) : csum B v ≤ wset M S v := by
+  unfold csum wset
+  apply Finset.sum_le_sum
+  intro w _
+  rcases h w with h1 | h0
+  · exact le_of_eq h1
+  · rw [h0]
+    by_cases hs : S w
+    · rw [if_pos hs]; exact hM w v
+    · rw [if_neg hs]
+
+end nestcount
+
 -- (tenth batch, `section dijkstra`: definitions `wwalk`, `reachw`, `wd`; `wd_self`, `wd_nonneg`, `wd_le`, `le_wd`, `wd_approx`, `wd_attained`
 --  (the infimum is a minimum), `wd_relax`, `wd_triangle`, `wwalk_cross(_wd)`, `dijkstra_lower`, `dijkstra_step`, `dijkstra_step_le`,
 --  `dijkstra_step_inv`, `dijkstra_step_T`, `dijkstra_init`, `dijkstra_exhausted`, `dijkstra_smt`, `wd_smt`, `reachw_iff_sdist`, `reachw_iff_walk(_pos)`, `wd_pos`, `wd_pred`:
@@ -2838,5 +2886,6 @@ end diagcount
 -- (fourteenth batch, `section renumber`: `walk_renum`, `sdist_renum`, `wwalk_renum`, `reachw_renum`, `wd_renum`, `tot_renum` and the cell forms
 --  `sdist_renum_cells`, `wd_renum_cells`, `tot_renum_cells`: all proved.)
 -- (fifteenth batch, `section diagcount`: `ccnt_congr_support`, `cnt1_congr_support`, `ccnt_diag_set`, `cnt1_diag_set`: all proved.)
+-- (sixteenth batch, `section nestcount`: `ccnt_le_dset`, `cnt_le_rset`, `ccnt_pos_of_witness`, `cnt_pos_of_witness`, `csum_le_wset`: all proved.)
 
 end VerifLemmas
